@@ -3,8 +3,8 @@ SPEC = {
     "level": "model_checking",
     "parts": [part("c08_superpose", "plain", ["c08_superpose.cpp"])],
     "rule": "all subsets of size <=3 (thorough <=4) of a 8-bias menu (two harmonics sharing a variable, walls, linear, "
-            "histogram, ABF with applyBias off, metadynamics, harmonic with scaledBiasingForce grid) x all timeStepFactor tuples over {1..3} (thorough {1..4}) x "
-            "first step of the run in 0..3 (thorough 0..5) x 7 (thorough 10) scripted steps, plus variable-level factors; "
+            "histogram, ABF with applyBias off, metadynamics, harmonic with scaledBiasingForce grid) x all timeStepFactor tuples over {1..4} (thorough {1..5}) x "
+            "first step of the run in 0..4 (thorough 0..6) x 8 (thorough 12) scripted steps, plus variable-level factors; "
             "each combined run is compared step by step with the sum of the single-bias runs; every case of one or two members also with the first "
             "member switched off from the script interface before the 2nd and before the 3rd step (from then on it must contribute nothing); states = distinct force "
             "histories, transitions = Colvars steps; a case is non-trivial when accepted and compared on every step",
